@@ -164,6 +164,7 @@ func (w *worker) checkpoint() {
 	w.emit(resLine{T: "c", C: w.counters})
 	w.counters = map[string]int64{}
 }
+
 // recycle ends this worker process after case i completed; the orchestrator continues with a fresh process.
 func (w *worker) recycle(i int) {
 	w.checkpoint()
